@@ -32,8 +32,9 @@ Definition inr (i bound : Z) : bool := (0 <=? i) && (i <? bound).
    current node are  head mod 64  and  tail mod 64.  dq_map = _M_map_size, dq_sn = _M_start._M_node - _M_map;
    _M_finish._M_node - _M_map = dq_sn + tail/64 - head/64.   A fresh deque: map of 8, start node 3 (stl_deque.h
    _M_initialize_map), one node — allocated by the constructor, i.e. in the warm-up outside every measured region. *)
-Record deque := mkDq { dq_map : Z; dq_sn : Z; dq_head : Z; dq_tail : Z }.
-Definition dq0 : deque := mkDq 8 3 0 0.
+(* dq_hw = the largest dq_tail reached so far (tail can move back: create_suspend_point uses pop_back) *)
+Record deque := mkDq { dq_map : Z; dq_sn : Z; dq_head : Z; dq_tail : Z; dq_hw : Z }.
+Definition dq0 : deque := mkDq 8 3 0 0 0.
 Definition node_len : Z := 64.
 Definition node_bytes : Z := 512.
 Definition dq_fn (d : deque) : Z := dq_sn d + dq_tail d / node_len - dq_head d / node_len.
@@ -44,9 +45,9 @@ Definition dq_reserve_back (d : deque) : deque * cost :=
     let old := dq_fn d - dq_sn d + 1 in
     let nw := old + 1 in
     if 2 * nw <? dq_map d
-    then (mkDq (dq_map d) ((dq_map d - nw) / 2) (dq_head d) (dq_tail d), c0)
+    then (mkDq (dq_map d) ((dq_map d - nw) / 2) (dq_head d) (dq_tail d) (dq_hw d), c0)
     else let nm := dq_map d + Z.max (dq_map d) 1 + 2 in
-         (mkDq nm ((nm - nw) / 2) (dq_head d) (dq_tail d), cadd (c_alloc (8 * nm)) (c_free (8 * dq_map d)))
+         (mkDq nm ((nm - nw) / 2) (dq_head d) (dq_tail d) (dq_hw d), cadd (c_alloc (8 * nm)) (c_free (8 * dq_map d)))
   else (d, c0).
 
 (* push_back: stl_deque.h push_back / deque.tcc _M_push_back_aux: the element that fills the last slot of
@@ -54,14 +55,20 @@ Definition dq_reserve_back (d : deque) : deque * cost :=
 Definition dq_push (d : deque) : deque * cost :=
   if dq_tail d mod node_len =? node_len - 1 then
     let '(d1, c1) := dq_reserve_back d in
-    (mkDq (dq_map d1) (dq_sn d1) (dq_head d1) (dq_tail d1 + 1), cadd c1 (c_alloc node_bytes))
-  else (mkDq (dq_map d) (dq_sn d) (dq_head d) (dq_tail d + 1), c0).
+    (mkDq (dq_map d1) (dq_sn d1) (dq_head d1) (dq_tail d1 + 1) (Z.max (dq_hw d1) (dq_tail d1 + 1)), cadd c1 (c_alloc node_bytes))
+  else (mkDq (dq_map d) (dq_sn d) (dq_head d) (dq_tail d + 1) (Z.max (dq_hw d) (dq_tail d + 1)), c0).
 
 (* pop_front: _M_pop_front_aux frees the start node when its last element leaves *)
 Definition dq_pop (d : deque) : deque * cost :=
   if dq_head d mod node_len =? node_len - 1
-  then (mkDq (dq_map d) (dq_sn d + 1) (dq_head d + 1) (dq_tail d), c_free node_bytes)
-  else (mkDq (dq_map d) (dq_sn d) (dq_head d + 1) (dq_tail d), c0).
+  then (mkDq (dq_map d) (dq_sn d + 1) (dq_head d + 1) (dq_tail d) (dq_hw d), c_free node_bytes)
+  else (mkDq (dq_map d) (dq_sn d) (dq_head d + 1) (dq_tail d) (dq_hw d), c0).
+
+(* pop_back: _M_pop_back_aux frees the finish node when the finish cursor stands at its first slot *)
+Definition dq_pop_back (d : deque) : deque * cost :=
+  if dq_tail d mod node_len =? 0
+  then (mkDq (dq_map d) (dq_sn d) (dq_head d) (dq_tail d - 1) (dq_hw d), c_free node_bytes)
+  else (mkDq (dq_map d) (dq_sn d) (dq_head d) (dq_tail d - 1) (dq_hw d), c0).
 
 Fixpoint dq_pushes (d : deque) (k : nat) : deque * cost :=
   match k with
@@ -73,9 +80,17 @@ Fixpoint dq_pops (d : deque) (k : nat) : deque * cost :=
   | O => (d, c0)
   | S j => let '(d1, c1) := dq_pop d in let '(d2, c2) := dq_pops d1 j in (d2, cadd c1 c2)
   end.
+Fixpoint dq_pop_backs (d : deque) (k : nat) : deque * cost :=
+  match k with
+  | O => (d, c0)
+  | S j => let '(d1, c1) := dq_pop_back d in let '(d2, c2) := dq_pop_backs d1 j in (d2, cadd c1 c2)
+  end.
 
 (* ---------- suspend_point<void> ---------- *)
-(* a ready coroutine: (kind, waiter id, object): kind 0 = waits for future `object`, kind 1 = was granted mutex `object` *)
+(* an entry of a suspend point / the ready queue: (kind, coroutine id, object):
+   kind 0 = suspended in `co_await future[object]`, now ready; kind 1 = was granted mutex `object`;
+   kind 2 = not started yet, will `co_await future[object]`; kind 3 = not started yet, will lock mutex `object`
+   (2 and 3: `coro.detach()` discarded in coroutine mode: the start goes through the ready queue) *)
 Definition item := (Z * Z * Z)%type.
 Definition event := (Z * Z * Z)%type.     (* who, outcome (0 value, 1 exception, 2 no value/cancelled, 3 lock acquired), value *)
 
@@ -129,7 +144,7 @@ Definition NS : Z := 4.   Definition NH : Z := 6.   Definition NC : Z := 32.
 Record state := mkSt {
   futs : list fut;
   mtxs : list mtx;
-  gens : list (option (Z * Z));   (* generator<int>: (values produced so far, or total+1 when finished; total) *)
+  gens : list (option (Z * Z * Z)); (* generator<int> / generator<int,int>: (values produced so far, or total+1 when finished; total; takes an argument) *)
   slots : list spt;               (* suspend_point<void> variables of the program *)
   rq : list item;                 (* coro_queue::instance->_queue contents (coroutine mode) *)
   dq : deque;                     (* ... and its allocation cursor *)
@@ -149,7 +164,7 @@ Definition setf (st : state) (f : Z) (x : fut) : state :=
   mkSt (upd (futs st) f x) (mtxs st) (gens st) (slots st) (rq st) (dq st) (hbusy st) (cbusy st) (live st).
 Definition setm (st : state) (m : Z) (x : mtx) : state :=
   mkSt (futs st) (upd (mtxs st) m x) (gens st) (slots st) (rq st) (dq st) (hbusy st) (cbusy st) (live st).
-Definition setg (st : state) (g : Z) (x : option (Z * Z)) : state :=
+Definition setg (st : state) (g : Z) (x : option (Z * Z * Z)) : state :=
   mkSt (futs st) (mtxs st) (upd (gens st) g x) (slots st) (rq st) (dq st) (hbusy st) (cbusy st) (live st).
 Definition sets (st : state) (s : Z) (x : spt) : state :=
   mkSt (futs st) (mtxs st) (gens st) (upd (slots st) s x) (rq st) (dq st) (hbusy st) (cbusy st) (live st).
@@ -168,16 +183,26 @@ Definition release_waiter (st : state) (w : waiter) : state :=
 
 (* ---------- running ready coroutines ---------- *)
 (* A resumed waiter coroutine reads its result, reports it and returns: async<void>'s final_awaiter destroys
-   the frame (async.h:217-230).  A lock waiter takes the ownership it was granted. *)
-Definition run_item (st : state) (it : item) : state * event :=
+   the frame (async.h:217-230).  A lock waiter takes the ownership it was granted.  A coroutine that starts now
+   either finishes at once (future ready / mutex free) or subscribes and stays suspended.
+   result: state, reports, frames freed *)
+Definition run_item (st : state) (it : item) : state * list event * Z :=
   let '(k, w, o) := it in
-  if k =? 0 then (addlive st (-1), (w, f_out (getf st o), f_val (getf st o)))
-  else (addlive (setm st o (mkMtx 1 (m_q (getm st o)))) (-1), (w, 3, 0)).
+  if k =? 0 then (addlive st (-1), [(w, f_out (getf st o), f_val (getf st o))], 1)
+  else if k =? 1 then (addlive (setm st o (mkMtx 1 (m_q (getm st o)))) (-1), [(w, 3, 0)], 1)
+  else if k =? 2 then
+    let x := getf st o in
+    if f_st x =? 3 then (addlive st (-1), [(w, f_out x, f_val x)], 1)
+    else (setf st o (mkFut (f_st x) (f_ty x) (f_out x) (f_val x) ((0, w) :: f_chain x)), [], 0)
+  else
+    let x := getm st o in
+    if m_st x =? 0 then (addlive (setm st o (mkMtx 1 (m_q x))) (-1), [(w, 3, 0)], 1)
+    else (setm st o (mkMtx (m_st x) (m_q x ++ [(0, w)])), [], 0).
 
-Fixpoint run_items (st : state) (l : list item) : state * list event :=
+Fixpoint run_items (st : state) (l : list item) : state * list event * Z :=
   match l with
-  | [] => (st, [])
-  | it :: t => let '(st1, e) := run_item st it in let '(st2, es) := run_items st1 t in (st2, e :: es)
+  | [] => (st, [], 0)
+  | it :: t => let '(st1, e, k1) := run_item st it in let '(st2, es, k2) := run_items st1 t in (st2, e ++ es, k1 + k2)
   end.
 
 (* The driver coroutine suspends: `pushed` handles and then the driver itself are appended to the ready queue,
@@ -187,8 +212,8 @@ Definition suspend_drain (st : state) (first pushed : list item) : state * list 
   let '(d1, c1) := dq_pushes (dq st) (length pushed + 1) in
   let '(d2, c2) := dq_pops d1 (length (rq st) + length pushed + 1) in
   let order := first ++ rq st ++ pushed in
-  let '(st1, ev) := run_items (setq st [] d2) order in
-  (st1, ev, cadd c1 c2, zlen order).
+  let '(st1, ev, k) := run_items (setq st [] d2) order in
+  (st1, ev, cadd c1 c2, k).
 
 (* What happens to a suspend point returned by resolve / unlock / held in a variable.
    how 0: discarded -> suspend_now (suspend_point.h:130): normal mode resumes every handle now, in array order;
@@ -201,7 +226,7 @@ Definition dispose (coro : bool) (how s : Z) (st : state) (sp : spt) : state * l
   if how =? 2 then
     let '(d1, c) := sp_merge (gets st s) sp in (sets st s d1, [], c, c0, 0, sp_size d1)
   else if negb coro then
-    let '(st1, ev) := run_items st (sp_hs sp) in (st1, ev, sp_clear_cost sp, c0, zlen (sp_hs sp), sp_size sp)
+    let '(st1, ev, k) := run_items st (sp_hs sp) in (st1, ev, sp_clear_cost sp, c0, k, sp_size sp)
   else if how =? 0 then
     let '(d1, c) := dq_pushes (dq st) (length (sp_hs sp)) in
     (setq st (rq st ++ sp_hs sp) d1, [], sp_clear_cost sp, c, 0, sp_size sp)
@@ -230,6 +255,17 @@ Fixpoint walk (f : Z) (out v : Z) (st : state) (sp : spt) (l : list waiter)
         if k =? 2 then (st2, sp2, c2, (who w, out, v) :: cb, sy) else (st2, sp2, c2, cb, (who w, out, v) :: sy)
   end.
 
+(* coro_queue::create_suspend_point(fn) (suspend_point.h:319) around a resolution whose own suspend point is discarded
+   inside fn: the queue is active there (installed for the call in normal mode), so the handles are pushed to the ready
+   queue; create_suspend_point then takes them back with back()/pop_back() into a new suspend point (reverse order).
+   result: state, the new suspend point, suspend-point cost, deque cost *)
+Definition csp_wrap (st : state) (sp : spt) : state * spt * cost * cost :=
+  let k := length (sp_hs sp) in
+  let '(d1, c1) := dq_pushes (dq st) k in
+  let '(d2, c2) := dq_pop_backs d1 k in
+  let '(ss, c3) := sp_add_all sp_empty (rev (sp_hs sp)) in
+  (setq st (rq st) d2, ss, cadd (sp_clear_cost sp) c3, cadd c1 c2).
+
 (* threads woken in one step report in helper order *)
 Fixpoint insert_ev (e : event) (l : list event) : list event :=
   match l with
@@ -245,8 +281,8 @@ Inductive op :=
 | FAwaitCoro (f w mode : Z) | FAwaitSync (f t : Z) | FAwaitCb (f c : Z)
 | FResolve (f kind how s v : Z) | FDestroy (f : Z)
 | MTry (m : Z) | MLockCoro (m w mode : Z) | MLockSync (m t : Z) | MLockCb (m c : Z) | MUnlock (m how s : Z)
-| GNew (g k : Z) | GNext (g how : Z) | GDestroy (g : Z)
-| SpFlush (s how : Z) | Pause | OBad.
+| GNew (g k a : Z) | GNext (g how arg : Z) | GDestroy (g : Z)
+| SpFlush (s how : Z) | Pause | PMove (f : Z) | OBad.
 
 Record obs := mkObs { o_st : Z; o_res : Z; o_sps : Z; o_cfr : cost; o_csp : cost; o_cdq : cost; o_ev : list event }.
 Definition rejected : obs := mkObs 1 0 0 c0 c0 c0 [].
@@ -256,32 +292,45 @@ Definition frames_freed (heap : bool) (k : Z) : cost := if heap then mkCost 0 0 
 (* how a suspend point may be disposed of in this mode *)
 Definition how_ok (coro : bool) (how s : Z) : bool :=
   (how =? 0) || ((how =? 1) && coro) || ((how =? 2) && inr s NS).
-Definition mode_ok (coro : bool) (mode : Z) : bool := (mode =? 0) || ((mode =? 1) && coro).
+Definition mode_ok (coro : bool) (mode : Z) : bool := (mode =? 0) || (((mode =? 1) || (mode =? 2)) && coro).
 
-Definition refs_future (f : Z) (it : item) : bool := let '(k, _, o) := it in (k =? 0) && (o =? f).
+Definition refs_future (f : Z) (it : item) : bool := let '(k, _, o) := it in ((k =? 0) || (k =? 2)) && (o =? f).
 Definition future_referenced (st : state) (f : Z) : bool :=
   existsb (refs_future f) (rq st) || existsb (fun s => existsb (refs_future f) (sp_hs s)) (slots st).
 
 (* starting a coroutine: mode 0 = resumed at once (normal mode: detach() discarded; coroutine mode:
-   detach().pop().resume()); mode 1 = `co_await coro.detach()`: the driver is queued behind it *)
+   detach().pop().resume()); mode 1 = `co_await coro.detach()`: the driver is queued behind it; mode 2 (coroutine
+   mode) = detach() discarded: the start itself is queued *)
 Definition after_start (coro : bool) (mode : Z) (st : state) (ev0 : list event) : state * list event * cost * Z :=
   if mode =? 1 then let '(st1, ev, c, k) := suspend_drain st [] [] in (st1, ev0 ++ ev, c, k)
   else (st, ev0, c0, 0).
 
+Definition defer_start (st : state) (it : item) : state * cost :=
+  let '(d1, c) := dq_push (dq st) in (addlive (setq st (rq st ++ [it]) d1) 1, c).
+
 Definition step (coro heap : bool) (st : state) (x : op) : state * obs :=
   match x with
   | FNew f ty =>
-      if inr f NF && inr ty 2 && (f_st (getf st f) =? 0)
+      (* ty: 0 int, 1 void, 2 int& (future<int&>), 3 a move-only struct holding an int *)
+      if inr f NF && inr ty 4 && (f_st (getf st f) =? 0)
       then (setf st f (mkFut 1 ty 0 0 []), mkObs 0 0 0 c0 c0 c0 [])
       else (st, rejected)
   | FGetP f =>
       if inr f NF && (f_st (getf st f) =? 1)
       then let x := getf st f in (setf st f (mkFut 2 (f_ty x) 0 0 []), mkObs 0 0 0 c0 c0 c0 [])
       else (st, rejected)
+  | PMove f =>
+      (* promise<T> q(std::move(p)); p = std::move(q);  — the promise is one pointer: nothing happens to the future *)
+      if inr f NF && (f_st (getf st f) =? 2)
+      then (st, mkObs 0 1 0 c0 c0 c0 [])
+      else (st, rejected)
   | FAwaitCoro f w mode =>
       let x := getf st f in
       if inr f NF && mode_ok coro mode && ((f_st x =? 2) || (f_st x =? 3)) then
-        if f_st x =? 3 then
+        if mode =? 2 then
+          let '(st1, c) := defer_start st (2, w, f) in
+          (st1, mkObs 0 0 1 (frame_new heap) c0 c [])
+        else if f_st x =? 3 then
           (* await_ready: the coroutine reports and returns at once: frame allocated and freed *)
           let '(st1, ev, c, k) := after_start coro mode st [(w, f_out x, f_val x)] in
           (st1, mkObs 0 0 0 (cadd (frame_new heap) (frames_freed heap (k + 1))) c0 c ev)
@@ -303,14 +352,20 @@ Definition step (coro heap : bool) (st : state) (x : op) : state * obs :=
         else (setc (setf st f (mkFut 2 (f_ty x) 0 0 ((2, c) :: f_chain x))) c true, mkObs 0 0 0 c0 c0 c0 [])
       else (st, rejected)
   | FResolve f kind how s v =>
+      (* kind: 0 value, 1 exception, 2 drop, 3 ~promise, 4 move-assignment of an empty promise over it
+         how: 0/1/2 as in dispose; 10/11/12 = the same, but the resolution happens inside
+         coro_queue::create_suspend_point and its result is what is disposed of *)
       let x := getf st f in
-      if inr f NF && (f_st x =? 2) && inr kind 4 && how_ok coro how s && ((kind <? 3) || (how =? 0)) then
+      let h := how mod 10 in
+      if inr f NF && (f_st x =? 2) && inr kind 5 && ((how =? h) || (how =? h + 10)) && how_ok coro h s
+         && ((kind <? 3) || (how =? 0)) then
         let out := if kind =? 0 then 0 else if kind =? 1 then 1 else 2 in
-        let v' := if (kind =? 0) && (f_ty x =? 0) then v else 0 in
+        let v' := if (kind =? 0) && negb (f_ty x =? 1) then v else 0 in
         let st1 := setf st f (mkFut 3 (f_ty x) out v' []) in
         let '(st2, sp, csp, cb, sy) := walk f out v' st1 sp_empty (f_chain x) in
-        let '(st3, ev, csp2, cdq, k, sps) := dispose coro how s st2 sp in
-        (st3, mkObs 0 1 sps (frames_freed heap k) (cadd csp csp2) cdq (cb ++ ev ++ sort_ev sy))
+        let '(st2', sp', csp1, cdq1) := if how =? h then (st2, sp, c0, c0) else csp_wrap st2 sp in
+        let '(st3, ev, csp2, cdq, k, sps) := dispose coro h s st2' sp' in
+        (st3, mkObs 0 1 sps (frames_freed heap k) (cadd csp (cadd csp1 csp2)) (cadd cdq1 cdq) (cb ++ ev ++ sort_ev sy))
       else (st, rejected)
   | FDestroy f =>
       let x := getf st f in
@@ -326,7 +381,10 @@ Definition step (coro heap : bool) (st : state) (x : op) : state * obs :=
   | MLockCoro m w mode =>
       if inr m NM && mode_ok coro mode then
         let x := getm st m in
-        if m_st x =? 0 then
+        if mode =? 2 then
+          let '(st1, c) := defer_start st (3, w, m) in
+          (st1, mkObs 0 0 1 (frame_new heap) c0 c [])
+        else if m_st x =? 0 then
           let '(st1, ev, c, k) := after_start coro mode (setm st m (mkMtx 1 (m_q x))) [(w, 3, 0)] in
           (st1, mkObs 0 0 0 (cadd (frame_new heap) (frames_freed heap (k + 1))) c0 c ev)
         else
@@ -365,17 +423,18 @@ Definition step (coro heap : bool) (st : state) (x : op) : state * obs :=
               (st3, mkObs 0 0 sps (frames_freed heap k) csp2 cdq ((who w, 3, 0) :: ev))
         end
       else (st, rejected)
-  | GNew g k =>
-      if inr g NG && inr k 9 && match nth (n g) (gens st) None with None => true | Some _ => false end
-      then (addlive (setg st g (Some (0, k))) 1, mkObs 0 0 0 (frame_new heap) c0 c0 [])
+  | GNew g k a =>
+      if inr g NG && inr k 9 && inr a 2 && match nth (n g) (gens st) None with None => true | Some _ => false end
+      then (addlive (setg st g (Some (0, k, a))) 1, mkObs 0 0 0 (frame_new heap) c0 c0 [])
       else (st, rejected)
-  | GNext g how =>
+  | GNext g how arg =>
       if inr g NG && (inr how 2 || ((how =? 2) && coro)) then
         match nth (n g) (gens st) None with
         | None => (st, rejected)
-        | Some (cur, k) =>
-            if cur <? k then (setg st g (Some (cur + 1, k)), mkObs 0 (100 * g + cur + 1) 0 c0 c0 c0 [])
-            else if cur =? k then (setg st g (Some (cur + 1, k)), mkObs 0 (-1) 0 c0 c0 c0 [])
+        | Some (cur, k, a) =>
+            if cur <? k then (setg st g (Some (cur + 1, k, a)),
+                              mkObs 0 (100 * g + cur + 1 + (if a =? 1 then 1000 * arg else 0)) 0 c0 c0 c0 [])
+            else if cur =? k then (setg st g (Some (cur + 1, k, a)), mkObs 0 (-1) 0 c0 c0 c0 [])
             else if how =? 1 then (st, rejected)
             else (st, mkObs 0 (-1) 0 c0 c0 c0 [])
         end
@@ -418,13 +477,14 @@ Definition decode (l : list Z) : op :=
   | [5; f; c] => FAwaitCb f c
   | [6; f; kind; how; s; v] => FResolve f kind how s v
   | [7; f] => FDestroy f
+  | [8; f] => PMove f
   | [10; m] => MTry m
   | [11; m; w; mode] => MLockCoro m w mode
   | [12; m; t] => MLockSync m t
   | [13; m; c] => MLockCb m c
   | [14; m; how; s] => MUnlock m how s
-  | [20; g; k] => GNew g k
-  | [21; g; how] => GNext g how
+  | [20; g; k; a] => GNew g k a
+  | [21; g; how; arg] => GNext g how arg
   | [22; g] => GDestroy g
   | [30; s; how] => SpFlush s how
   | [31] => Pause
@@ -433,12 +493,12 @@ Definition decode (l : list Z) : op :=
 
 Definition encode_op (x : op) : list Z :=
   match x with
-  | FNew f ty => [1; f; ty] | FGetP f => [2; f]
+  | FNew f ty => [1; f; ty] | FGetP f => [2; f] | PMove f => [8; f]
   | FAwaitCoro f w mode => [3; f; w; mode] | FAwaitSync f t => [4; f; t] | FAwaitCb f c => [5; f; c]
   | FResolve f kind how s v => [6; f; kind; how; s; v] | FDestroy f => [7; f]
   | MTry m => [10; m] | MLockCoro m w mode => [11; m; w; mode] | MLockSync m t => [12; m; t]
   | MLockCb m c => [13; m; c] | MUnlock m how s => [14; m; how; s]
-  | GNew g k => [20; g; k] | GNext g how => [21; g; how] | GDestroy g => [22; g]
+  | GNew g k a => [20; g; k; a] | GNext g how arg => [21; g; how; arg] | GDestroy g => [22; g]
   | SpFlush s how => [30; s; how] | Pause => [31] | OBad => [0]
   end.
 
@@ -456,29 +516,71 @@ Definition encode_obs (o : obs) : list Z :=
 Definition al_run (coro heap : bool) (ops : list (list Z)) : list (list Z) :=
   map encode_obs (fst (run_from coro heap st0 (map decode ops))).
 
+(* diagnostic engines al?hq / al?sq: the deque component of every step alone (used to classify a failing trace) *)
+Definition al_run_dq (coro heap : bool) (ops : list (list Z)) : list (list Z) :=
+  map (fun o => [c_a (o_cdq o); c_ab (o_cdq o); c_f (o_cdq o); c_fb (o_cdq o)])
+      (fst (run_from coro heap st0 (map decode ops))).
+
 (* ---------- the property as a decidable predicate over an observed trace ---------- *)
 Definition frames_of (x : op) : Z :=
-  match x with FAwaitCoro _ _ _ => 1 | MLockCoro _ _ _ => 1 | GNew _ _ => 1 | _ => 0 end.
+  match x with FAwaitCoro _ _ _ => 1 | MLockCoro _ _ _ => 1 | GNew _ _ _ => 1 | _ => 0 end.
 
-(* one accepted step: the only allocations are the frames the op creates (none under a non-heap storage),
-   and while the suspend point of the step carries at most three handles nothing else is allocated or freed *)
-Definition line_ok (heap : bool) (x : op) (l : list Z) : bool :=
-  match l with
-  | 1 :: _ => true
-  | 0 :: _ :: sps :: fa :: ff :: oa :: oab :: of_ :: ofb :: _ =>
-      (fa =? (if heap then frames_of x else 0)) && (0 <=? ff) && (heap || (ff =? 0))
-      && ((inline_count <? sps) || ((oa =? 0) && (oab =? 0) && (of_ =? 0) && (ofb =? 0)))
-  | _ => false
+(* The only memory a suspend point may use: the documented heap array once it carries more than three handles
+   (suspend_point.h:33).  It depends on handle counts alone: a suspend point that grew from empty to n handles. *)
+Definition dummy : item := (0, 0, 0).
+Definition mk_sp (k : Z) : spt := fst (sp_add_all sp_empty (repeat dummy (n k))).
+Definition grow_cost (a b : Z) : cost := snd (sp_add_all (mk_sp a) (repeat dummy (n (b - a)))).
+Definition clear_cost (k : Z) : cost := sp_clear_cost (mk_sp k).
+Definition ceq (a b : cost) : bool :=
+  (c_a a =? c_a b) && (c_ab a =? c_ab b) && (c_f a =? c_f b) && (c_fb a =? c_fb b).
+
+(* what the suspend points of one accepted step may cost, given the sizes of the program's suspend point variables
+   before the step and the size reported for the step; also the sizes after the step.  None = malformed *)
+Definition sp_budget (sl : list Z) (x : op) (sps : Z) : option (cost * list Z) :=
+  match x with
+  | FResolve f kind how s v =>
+      let h := how mod 10 in
+      let old := if h =? 2 then nth (n s) sl 0 else 0 in
+      let k := sps - old in
+      if 0 <=? k then
+        let once := cadd (grow_cost 0 k) (clear_cost k) in
+        let made := if how =? h then once else cadd once once in
+        if h =? 2 then Some (cadd made (grow_cost old sps), upd sl s sps) else Some (made, sl)
+      else None
+  | MUnlock m how s =>
+      if how =? 2 then
+        let old := nth (n s) sl 0 in
+        if (0 <=? sps - old) && (sps - old <=? 1) then Some (grow_cost old sps, upd sl s sps) else None
+      else if (0 <=? sps) && (sps <=? 1) then Some (c0, sl) else None
+  | SpFlush s how => Some (clear_cost sps, upd sl s 0)
+  | _ => Some (c0, sl)
   end.
 
-Fixpoint lines_ok (heap : bool) (ops : list op) (obs : list (list Z)) : bool :=
+(* one accepted step: the only allocations are the frames the op creates (none under a non-heap storage) and the
+   suspend point arrays above; with at most three handles per suspend point that is: nothing but the frames *)
+Definition line_ok (heap : bool) (sl : list Z) (x : op) (l : list Z) : option (list Z) :=
+  match l with
+  | 1 :: _ => Some sl
+  | 0 :: _ :: sps :: fa :: ff :: oa :: oab :: of_ :: ofb :: _ =>
+      match sp_budget sl x sps with
+      | Some (c, sl') =>
+          if (fa =? (if heap then frames_of x else 0)) && (0 <=? ff) && (heap || (ff =? 0))
+             && ceq (mkCost oa oab of_ ofb) c
+          then Some sl' else None
+      | None => None
+      end
+  | _ => None
+  end.
+
+Fixpoint lines_ok (heap : bool) (sl : list Z) (ops : list op) (obs : list (list Z)) : bool :=
   match ops, obs with
   | [], [] => true
-  | x :: t, l :: u => line_ok heap x l && lines_ok heap t u
+  | x :: t, l :: u => match line_ok heap sl x l with Some sl' => lines_ok heap sl' t u | None => false end
   | _, _ => false
   end.
 
-Definition al_oracle (heap : bool) (ops obs : list (list Z)) : bool := lines_ok heap (map decode ops) obs.
+Definition al_oracle (heap : bool) (ops obs : list (list Z)) : bool :=
+  lines_ok heap (repeat 0 (n NS)) (map decode ops) obs.
 
 (* ---------- the refutation witness (coroutine mode): k rounds of
    new future, take promise, a coroutine awaits it, resolve and co_await the returned suspend point, destroy ---------- *)
@@ -488,3 +590,34 @@ Definition witness : list op := rounds 64.
 (* engine `alw`: prints the witness program itself, so that the check replays exactly this program on the real code *)
 Definition al_witness (_ : list (list Z)) : list (list Z) := map encode_op witness.
 Definition al_witness_oracle (_ _ : list (list Z)) : bool := true.
+
+(* ---------- cross-check of the controlled-schedule harnesses of C01/C02 (ctl_cell.cpp) and C07/C08 (ctl_mutex.cpp):
+   the number of operator new calls made by the scenario threads must be the number of coroutine frames the scenario
+   creates (+ one node per callback waiter, which that harness allocates itself), whatever the schedule ---------- *)
+Definition cell_decl_allocs (l : list Z) : Z :=
+  match l with
+  | [1; k; d] => if (k =? 4) || (k =? 5) then 1 else 0          (* resolver that is an async coroutine *)
+  | [2; k] => if (k =? 0) || (k =? 4) || (k =? 2) then 1 else 0  (* coroutine waiters; callback waiter's CbCtx *)
+  | _ => 0
+  end.
+Fixpoint sumz (l : list Z) : Z := match l with [] => 0 | x :: t => x + sumz t end.
+Definition alx_cell_run (ops : list (list Z)) : list (list Z) := [[20; sumz (map cell_decl_allocs ops)]].
+
+Fixpoint rounds_ok (l : list Z) : bool :=
+  match l with
+  | [] => true
+  | a :: r :: t => inr a 2 && inr r 3 && rounds_ok t
+  | _ => false
+  end.
+Definition mutex_decl_allocs (l : list Z) : Z :=
+  match l with
+  | 1 :: k :: rs => if (k =? 0) && rounds_ok rs then 1 else 0   (* a coroutine contender = one frame *)
+  | _ => 0
+  end.
+Definition alx_mutex_run (ops : list (list Z)) : list (list Z) := [[20; sumz (map mutex_decl_allocs ops)]].
+(* the cross-check property itself: observed operator new calls of the scenario = frames it creates
+   (no line at all = the schedule deadlocked and the process was restarted: judged by C02/C07, not here) *)
+Definition alx_cell_oracle (ops obs : list (list Z)) : bool :=
+  match obs with [[20; k]] => k =? sumz (map cell_decl_allocs ops) | [] => true | _ => false end.
+Definition alx_mutex_oracle (ops obs : list (list Z)) : bool :=
+  match obs with [[20; k]] => k =? sumz (map mutex_decl_allocs ops) | [] => true | _ => false end.
